@@ -8,7 +8,7 @@ VARIABLES d, s,
 vars == <<d, s, mem, open, obs, ph>>
 C == G.duts[d].cfg
 Init == /\ d \in 1..NDuts /\ s = 0 /\ ph = 0 /\ open = <<>> /\ mem = MemInit(C)
-        /\ obs = [okread |-> TRUE, okack |-> TRUE, okerr |-> TRUE, pending |-> FALSE]
+        /\ obs = ObsInit
 Step(iv) ==
   /\ s >= 0
   /\ LET e == GLookup(G.duts[d].succ[s + 1], iv) IN
